@@ -145,3 +145,14 @@ Example merge_example :
   vtx (xmat 2 2 [XFin 1; XFin 2; XFin 3; XFin 4]) (VList [VFloat (XFin 7); VFloat (XFin 8)]) (VInt 3) (VBool true)
   = Ok (VArr KF [2; 3] [XFin 1; XFin 2; XFin 7; XFin 3; XFin 4; XFin 8]).
 Proof. reflexivity. Qed.
+
+(* NumPy arrays (not instances of jax.numpy.ndarray) are converted by validate_array first:
+   the per-row and scalar array forms above hold verbatim for numpy.ndarray times *)
+Lemma numpy_times_same x k sh d nf c :
+  vtx x (VNpArr k sh d) nf (VBool c) = vtx x (VArr k sh d) nf (VBool c).
+Proof.
+  unfold vtx, py_validation_validate_time_x.
+  match goal with |- bind ?m _ = bind ?m _ => destruct m as [x'|e]; [|reflexivity] end.
+  cbn [bind]. destruct c; cbn [cond truthy bind and_then or_else rmap negb py_is_not py_is];
+    destruct sh as [|s1 [|s2 [|s3 sh]]]; reflexivity.
+Qed.
